@@ -276,7 +276,7 @@ func (jenny RawTypes) constructors(object ast.Object) []ConstructorTemplate {
 	assignments := make([]ConstructorAssignmentTemplate, 0)
 	defaultConstructorAssignments := make([]ConstructorAssignmentTemplate, 0)
 	for _, field := range fields {
-		name := tools.LowerCamelCase(escapeVarName(field.Name))
+		name := escapeVarName(tools.LowerCamelCase(field.Name))
 		if field.Type.IsConstantRef() {
 			assign := ConstructorAssignmentTemplate{
 				Name:  name,
